@@ -101,7 +101,7 @@ def run(pid, tier, seed, args, t0):
     w = mod.build()
     outdir = os.path.join(ROOT, 'out', pid); os.makedirs(os.path.join(outdir, 'replay'), exist_ok=True)
     for f in os.listdir(os.path.join(outdir, 'replay')): os.unlink(os.path.join(outdir, 'replay', f))
-    targets = [c for c in w.contracts.values() if not c.trusted]
+    targets = [c for c in w.contracts.values() if not c.trusted and not c.inline]
     if args.only: targets = [c for c in targets if args.only in c.key]
     jobs = [(pid, c.key, tier) for c in targets]
     with ProcessPoolExecutor(max_workers=args.jobs) as pool:
